@@ -6,7 +6,7 @@
    unless the todo is done or cancelled (C12_emitted_item_reads_as_the_same_note).  What is NOT proved is the parser
    (text -> tree), which the harness checks on every run: generated notes are rendered by the real Note.to_string,
    query execution and saved-query refresh, recompiled by the real compiler and compared. *)
-From Zorg Require Import Base.PyStr Base.Res Base.Dates Gen.Params Model.FileListener Model.Witness Model.NoteText
+From Zorg Require Import Proofs.ResultsPage Model.PageLines Model.WriteBack Base.PyStr Base.Res Base.Dates Gen.Params Model.FileListener Model.Witness Model.NoteText
   Proofs.NoteTextFacts Model.PageSyntax Proofs.PageFacts Model.PageText Proofs.PageTextFacts.
 
 Theorem C12_emitted_text_is_an_item : forall today ot op od key line it,
@@ -30,6 +30,27 @@ Theorem C12_emitted_item_reads_as_the_same_note : forall today ot op od key line
   | _, _ => False
   end.
 Proof. exact emit_form_reading. Qed.
+
+(* The second sentence of the property. results_page title its = a header line (any title words), a blank line, the
+   text forms of the selected items - one per line, in the order given -, a blank line.  Its text is exactly that
+   (C12_results_page_text); it compiles without error to one note per selected item, in order
+   (C12_results_page_compiles, from the page theorem of C01), on consecutive lines from line 3, each with the ZID and
+   the body of its item (C12_results_page_notes; kind, priority, dates, tags: C12_emitted_item_reads_as_the_same_note). *)
+Theorem C12_results_page_text : forall title its,
+  page_text (results_page title its) =
+  (S "#" ++ words_text title) ++ [nlc10] ++ [nlc10] ++
+  concat (map (fun it => render_item (emit_form it) ++ [nlc10]) its) ++ [nlc10].
+Proof. exact results_page_text. Qed.
+Theorem C12_results_page_compiles : forall today title its,
+  Forall valid_mword title -> Forall valid_item its ->
+  exists secs, listen today false (tree_of_page (results_page title its)) =
+               Ok (mkPage false (spec_page today (results_page title its)) secs).
+Proof. exact results_page_compiles. Qed.
+Theorem C12_results_page_notes : forall today title its,
+  map (fun n => (n_line n, n_zid n, n_body n)) (spec_page today (results_page title its)) =
+  map (fun li => (fst li, ident_zid (i_ident (snd li)), strip (words_text (item_words (snd li)))))
+      (combine (seq 3 (length its)) its).
+Proof. exact results_page_notes. Qed.
 
 Theorem C12_tidy_decidable : forall it, tidyb it = true -> tidy it.
 Proof. exact tidyb_sound. Qed.
@@ -71,6 +92,9 @@ Proof.
   split; [vm_compute; reflexivity|]. split; [reflexivity|]. repeat split.
 Qed.
 
+Print Assumptions C12_results_page_text.
+Print Assumptions C12_results_page_compiles.
+Print Assumptions C12_results_page_notes.
 Print Assumptions C12_emitted_text_is_an_item.
 Print Assumptions C12_emitted_item_is_valid.
 Print Assumptions C12_emitted_item_reads_as_the_same_note.
